@@ -835,3 +835,19 @@ impl<S: WebSocket, T: TimestampProvider> Task<S, T> {
         }
     }
 }
+
+/// Entry points for the loom models of an external verification harness (`verif_loom.rs`).
+/// Compiled only for `cfg(all(test, loom, penguin_rs_verif))`; never part of a normal build or test run.
+#[cfg(all(test, loom, penguin_rs_verif))]
+impl<S: WebSocket, T: TimestampProvider> Task<S, T> {
+    pub(crate) fn verif_new_stream_shared(
+        &self,
+        flow_id: u32,
+        peer_rwnd: u32,
+    ) -> (MuxStream, EstablishedStreamData) {
+        self.new_stream_shared(flow_id, peer_rwnd, Bytes::new(), 0)
+    }
+    pub(crate) async fn verif_process_frame(&self, frame: Frame<'static>) -> Result<()> {
+        self.process_frame(frame, false).await
+    }
+}
